@@ -14,3 +14,7 @@ class Session:  # pragma: no cover
         raise RuntimeError("requests stand-in: no network")
 
     post = get
+
+
+class HTTPError(Exception):  # pragma: no cover
+    pass
